@@ -240,6 +240,7 @@ func VerifInitBuiltin(pkg *Package, builtin *types.Package, conf *Config, fresh 
 	var rewrittenSites []string
 	var yieldSites []string
 	var execSeams []string
+	var coverSites []string
 	for _, p := range pkgs {
 		if strings.Contains(p.importPath, "/packages") {
 			// the importer/cache packages are driven by C20's own harness: no map-range rewrite; with
@@ -321,6 +322,20 @@ func VerifInitBuiltin(pkg *Package, builtin *types.Package, conf *Config, fresh 
 					if !ok || fd.Body == nil {
 						continue
 					}
+					// API coverage accounting: every exported function / method of an exported receiver
+					if fd.Name.IsExported() && (fd.Recv == nil || exportedRecv(fd.Recv)) && !strings.HasPrefix(fd.Name.Name, "Verif") {
+						cname := fd.Name.Name
+						if fd.Recv != nil {
+							cname = types.ExprString(fd.Recv.List[0].Type) + "." + cname
+						}
+						csite := strings.TrimPrefix(p.importPath, modPath) + ":" + cname
+						fd.Body.List = append([]ast.Stmt{&ast.ExprStmt{X: &ast.CallExpr{
+							Fun:  &ast.SelectorExpr{X: ast.NewIdent("verifrt"), Sel: ast.NewIdent("Cover")},
+							Args: []ast.Expr{&ast.BasicLit{Kind: token.STRING, Value: fmt.Sprintf("%q", csite)}},
+						}}}, fd.Body.List...)
+						coverSites = append(coverSites, csite)
+						changed = true
+					}
 					touches := false
 					ast.Inspect(fd.Body, func(n ast.Node) bool {
 						if id, ok := n.(*ast.Ident); ok && !touches {
@@ -389,9 +404,32 @@ func VerifInitBuiltin(pkg *Package, builtin *types.Package, conf *Config, fresh 
 	data, _ := json.MarshalIndent(map[string]any{"Replace": overlay}, "", " ")
 	writeIfChanged(filepath.Join(*out, "overlay.json"), data)
 	meta, _ := json.MarshalIndent(map[string]any{
-		"instrumentation_gaps": gaps, "map_ranges_rewritten": rewrittenSites, "packages": len(pkgs), "yield_sites": yieldSites, "exec_seams": execSeams,
+		"instrumentation_gaps": gaps, "map_ranges_rewritten": rewrittenSites, "packages": len(pkgs), "yield_sites": yieldSites, "exec_seams": execSeams, "cover_sites": coverSites,
 	}, "", " ")
 	writeIfChanged(filepath.Join(*out, "ovgen_meta.json"), meta)
+}
+
+func exportedRecv(recv *ast.FieldList) bool {
+	if len(recv.List) != 1 {
+		return false
+	}
+	t := recv.List[0].Type
+	for {
+		switch x := t.(type) {
+		case *ast.StarExpr:
+			t = x.X
+			continue
+		case *ast.IndexExpr:
+			t = x.X
+			continue
+		case *ast.IndexListExpr:
+			t = x.X
+			continue
+		case *ast.Ident:
+			return x.IsExported()
+		}
+		return false
+	}
 }
 
 func writeIfChanged(path string, data []byte) {
@@ -499,6 +537,19 @@ func Run(cmd *exec.Cmd) error {
 		return h(cmd)
 	}
 	return cmd.Run()
+}
+
+// Covered counts calls of exported API entry points (only instrumented for C18).
+var Covered = map[string]int{}
+
+// CoverOn enables the accounting (single-threaded use only).
+var CoverOn bool
+
+// Cover records a call of an exported function or method.
+func Cover(site string) {
+	if CoverOn {
+		Covered[site]++
+	}
 }
 
 // Sched, when set, is called at every scheduling point (entry of a library function that refers to a
